@@ -487,7 +487,8 @@ func checkC18(c C18Case) (nontrivial bool, v *harness.Violation) {
 				}
 				for p := range after {
 					if strings.HasPrefix(p, "hidi-config/user/") {
-						if _, ok := before[p]; !ok {
+						// (an empty directory that upkeep makes there - a deleted user/keyboard made again - is no user file)
+						if _, ok := before[p]; !ok && after[p] != "dir" {
 							return harness.NewViolation("C18", "user-tree-changed", "", "%s appeared below user/ during upkeep", p)
 						}
 					}
@@ -827,7 +828,7 @@ func checkC18Kill(kc C18KillCase) (nontrivial bool, v *harness.Violation) {
 				}
 				for p := range after {
 					if strings.HasPrefix(p, "hidi-config/user/") {
-						if _, ok := before[p]; !ok {
+						if _, ok := before[p]; !ok && after[p] != "dir" {
 							return harness.NewViolation("C18", "user-tree-changed", "after-kill", "%s appeared below user/", p)
 						}
 					}
